@@ -123,9 +123,18 @@ def analyse(m, g, kind):
         if fn:
             calls = A.find_all(fn["body"], lambda n: isinstance(n, dict) and n.get("x") and n.get("k") == "call"
                                and A.last_seg(n["func"]) == "response_schemas_impl")
-            wf.responses = [A.expr_path_str(c["func"]) for c in calls]
+            wf.responses = [_responses_callee(c["func"]) for c in calls]
             wf.responses_body = fn["body"]
     return wf
+
+
+def _responses_callee(func):
+    """`T::response_schemas_impl` and `<T as ..::QueryResponses>::response_schemas_impl` name the same function unless T has an
+    inherent function of that name (the qualified form is the robust one); both normalise to `T::response_schemas_impl`"""
+    if func.get("qself") and func.get("qpos") and func["path"]["segs"][func["qpos"] - 1]["id"] == "QueryResponses" \
+            and len(func["path"]["segs"]) == func["qpos"] + 1:
+        return A.type_str(func["qself"]) + "::" + func["path"]["segs"][-1]["id"]
+    return A.expr_path_str(func)
 
 
 def _lists_feeding(blk, call):
